@@ -614,3 +614,179 @@ package keeper
 //@ emits[C09.keep C06.replace C07.reuse C05.own] [MessageSent{Message: encMessage(0, 4, u32be(msg.OriginalMessage, 8), u64be(msg.OriginalMessage, 12), msg.OriginalMessage[20:52], msg.OriginalMessage[52:84], msg.NewDestinationCaller, encBurn(u32be(msg.OriginalMessage, 116), msg.OriginalMessage[120:152], msg.NewMintRecipient, u256be(msg.OriginalMessage, 184), msg.OriginalMessage[216:248]))}, DepositForBurn{Nonce: u64be(msg.OriginalMessage, 12), BurnToken: hexenc(keccak(msg.OriginalMessage[120:152])), Amount: u256be(msg.OriginalMessage, 184), Depositor: msg.From, MintRecipient: msg.NewMintRecipient, DestinationDomain: u32be(msg.OriginalMessage, 8), DestinationTokenMessenger: msg.OriginalMessage[52:84], DestinationCaller: msg.NewDestinationCaller}]
 //@ calls[C09.inert C04.others C05.others] []
 //@ modifies[C15.frame C09.inert C07.frame C02.frame C11.frame C12.frame C13.frame] none
+
+// ======================================================================= L3: queries (C19, C15, C20)
+// A nil request is rejected; a single-item query succeeds iff the entry exists and returns it; scalar
+// queries return the stored value; no query writes (frame = none).
+
+//@ func (Keeper) Roles(goCtx, req) (resp, err)
+//@ nullable req
+//@ requires inited()
+//@ ensures[C19.nil C20.nil] req == nil ==> err != nil
+//@ ensures[C19.ok]    (err == nil) <==> (req != nil)
+//@ ensures[C19.value C11.query] err == nil ==> resp.Owner == st.owner.val && resp.AttesterManager == st.attesterManager.val && resp.Pauser == st.pauser.val && resp.TokenController == st.tokenController.val
+//@ emits[C15.query] []
+//@ calls[C15.query] []
+//@ modifies[C15.query C19.pure] none
+
+//@ func (Keeper) Attester(c, req) (resp, err)
+//@ nullable req
+//@ ensures[C19.nil C20.nil] req == nil ==> err != nil
+//@ ensures[C19.found] req != nil ==> ((err == nil) <==> st.attesters.has[req.Attester])
+//@ ensures[C19.value] err == nil ==> resp.Attester.Attester == st.attesters.val[req.Attester]
+//@ emits[C15.query] []
+//@ calls[C15.query] []
+//@ modifies[C15.query C19.pure] none
+
+//@ func (Keeper) PerMessageBurnLimit(c, req) (resp, err)
+//@ nullable req
+//@ ensures[C19.nil C20.nil] req == nil ==> err != nil
+//@ ensures[C19.found] req != nil ==> ((err == nil) <==> st.burnLimits.has[req.Denom])
+//@ ensures[C19.value] err == nil ==> resp.BurnLimit.Denom == st.burnLimits.denom[req.Denom] && resp.BurnLimit.Amount.isnil == st.burnLimits.nil[req.Denom] && resp.BurnLimit.Amount.v == st.burnLimits.amt[req.Denom]
+//@ emits[C15.query] []
+//@ calls[C15.query] []
+//@ modifies[C15.query C19.pure] none
+
+//@ func (Keeper) RemoteTokenMessenger(c, req) (resp, err)
+//@ nullable req
+//@ ensures[C19.nil C20.nil] req == nil ==> err != nil
+//@ ensures[C19.found] req != nil ==> ((err == nil) <==> st.messengers.has[req.DomainId])
+//@ ensures[C19.value] err == nil ==> resp.RemoteTokenMessenger.Address == st.messengers.addr[req.DomainId] && resp.RemoteTokenMessenger.DomainId == st.messengers.dom[req.DomainId]
+//@ emits[C15.query] []
+//@ calls[C15.query] []
+//@ modifies[C15.query C19.pure] none
+
+//@ func (Keeper) UsedNonce(c, req) (resp, err)
+//@ nullable req
+//@ ensures[C19.nil C20.nil] req == nil ==> err != nil
+//@ ensures[C19.found C02.query] req != nil ==> ((err == nil) <==> st.usedNonces.has[req.SourceDomain][req.Nonce])
+//@ ensures[C19.value C02.query] err == nil ==> resp.Nonce.SourceDomain == req.SourceDomain && resp.Nonce.Nonce == req.Nonce
+//@ emits[C15.query] []
+//@ calls[C15.query] []
+//@ modifies[C15.query C19.pure] none
+
+//@ func (Keeper) BurningAndMintingPaused(c, req) (resp, err)
+//@ nullable req
+//@ ensures[C19.nil C20.nil] req == nil ==> err != nil
+//@ ensures[C19.found] req != nil ==> ((err == nil) <==> st.bmPaused.set)
+//@ ensures[C19.value C12.query] err == nil ==> resp.Paused.Paused == st.bmPaused.val
+//@ emits[C15.query] []
+//@ calls[C15.query] []
+//@ modifies[C15.query C19.pure] none
+
+//@ func (Keeper) SendingAndReceivingMessagesPaused(c, req) (resp, err)
+//@ nullable req
+//@ ensures[C19.nil C20.nil] req == nil ==> err != nil
+//@ ensures[C19.found] req != nil ==> ((err == nil) <==> st.srPaused.set)
+//@ ensures[C19.value C12.query] err == nil ==> resp.Paused.Paused == st.srPaused.val
+//@ emits[C15.query] []
+//@ calls[C15.query] []
+//@ modifies[C15.query C19.pure] none
+
+//@ func (Keeper) MaxMessageBodySize(c, req) (resp, err)
+//@ nullable req
+//@ ensures[C19.nil C20.nil] req == nil ==> err != nil
+//@ ensures[C19.found] req != nil ==> ((err == nil) <==> st.maxBody.set)
+//@ ensures[C19.value] err == nil ==> resp.Amount.Amount == st.maxBody.val
+//@ emits[C15.query] []
+//@ calls[C15.query] []
+//@ modifies[C15.query C19.pure] none
+
+//@ func (Keeper) SignatureThreshold(c, req) (resp, err)
+//@ nullable req
+//@ ensures[C19.nil C20.nil] req == nil ==> err != nil
+//@ ensures[C19.found] req != nil ==> ((err == nil) <==> st.threshold.set)
+//@ ensures[C19.value C13.query] err == nil ==> resp.Amount.Amount == st.threshold.val
+//@ emits[C15.query] []
+//@ calls[C15.query] []
+//@ modifies[C15.query C19.pure] none
+
+//@ func (Keeper) NextAvailableNonce(c, req) (resp, err)
+//@ nullable req
+//@ ensures[C19.nil C20.nil] req == nil ==> err != nil
+//@ ensures[C19.found] req != nil ==> ((err == nil) <==> st.nextNonce.set)
+//@ ensures[C19.value C07.query] err == nil ==> resp.Nonce.Nonce == st.nextNonce.val
+//@ emits[C15.query] []
+//@ calls[C15.query] []
+//@ modifies[C15.query C19.pure] none
+
+//@ func (Keeper) LocalDomain(c, req) (resp, err)
+//@ nullable req
+//@ ensures[C19.scalar] err == nil && resp.DomainId == 4
+//@ emits[C15.query] []
+//@ calls[C15.query] []
+//@ modifies[C15.query C19.pure] none
+
+//@ func (Keeper) LocalMessageVersion(c, req) (resp, err)
+//@ nullable req
+//@ ensures[C19.scalar] err == nil && resp.Version == 0
+//@ emits[C15.query] []
+//@ calls[C15.query] []
+//@ modifies[C15.query C19.pure] none
+
+//@ func (Keeper) BurnMessageVersion(c, req) (resp, err)
+//@ nullable req
+//@ ensures[C19.scalar] err == nil && resp.Version == 0
+//@ emits[C15.query] []
+//@ calls[C15.query] []
+//@ modifies[C15.query C19.pure] none
+
+// Paginated list queries: proved here -- a nil request is rejected, the store handed to query.Paginate is the
+// prefix store of the query's own collection, nothing is written. Assumed (SDK): query.Paginate visits each
+// entry of that store exactly once across pages, for every limit/offset/key, with a correct total.
+
+//@ func (Keeper) Attesters(c, req) (resp, err)
+//@ nullable req
+//@ ensures[C19.nil C20.nil] req == nil ==> err != nil
+//@ ensures[C19.page] req != nil ==> paginatedPrefix() == "Attester/value/"
+//@ emits[C15.query] []
+//@ calls[C15.query] []
+//@ modifies[C15.query C19.pure] none
+
+//@ func (Keeper) PerMessageBurnLimits(c, req) (resp, err)
+//@ nullable req
+//@ ensures[C19.nil C20.nil] req == nil ==> err != nil
+//@ ensures[C19.page] req != nil ==> paginatedPrefix() == "PerMessageBurnLimit/value/"
+//@ emits[C15.query] []
+//@ calls[C15.query] []
+//@ modifies[C15.query C19.pure] none
+
+//@ func (Keeper) RemoteTokenMessengers(c, req) (resp, err)
+//@ nullable req
+//@ ensures[C19.nil C20.nil] req == nil ==> err != nil
+//@ ensures[C19.page] req != nil ==> paginatedPrefix() == "RemoteTokenMessenger/value/"
+//@ emits[C15.query] []
+//@ calls[C15.query] []
+//@ modifies[C15.query C19.pure] none
+
+//@ func (Keeper) TokenPairs(c, req) (resp, err)
+//@ nullable req
+//@ ensures[C19.nil C20.nil] req == nil ==> err != nil
+//@ ensures[C19.page] req != nil ==> paginatedPrefix() == "TokenPair/value/"
+//@ emits[C15.query] []
+//@ calls[C15.query] []
+//@ modifies[C15.query C19.pure] none
+
+//@ func (Keeper) UsedNonces(c, req) (resp, err)
+//@ nullable req
+//@ ensures[C19.nil C20.nil] req == nil ==> err != nil
+//@ ensures[C19.page] req != nil ==> paginatedPrefix() == "UsedNonce/value/"
+//@ emits[C15.query] []
+//@ calls[C15.query] []
+//@ modifies[C15.query C19.pure] none
+
+//@ macro hexTok(h) := hexdec(trimPrefix(h, "0x"))
+
+//@ func (Keeper) GetTokenPairHex(ctx, remoteDomain, remoteTokenHex) (val, found)
+//@ ensures[hex]     found == (validHex(trimPrefix(remoteTokenHex, "0x")) && len(hexTok(remoteTokenHex)) <= 32 && st.tokenPairs.has[remoteDomain][leftPad32(hexTok(remoteTokenHex))])
+//@ ensures[hex.val] found ==> val.LocalToken == st.tokenPairs.local[remoteDomain][leftPad32(hexTok(remoteTokenHex))] && val.RemoteDomain == st.tokenPairs.rdom[remoteDomain][leftPad32(hexTok(remoteTokenHex))] && val.RemoteToken == st.tokenPairs.rtok[remoteDomain][leftPad32(hexTok(remoteTokenHex))]
+//@ modifies none
+
+//@ func (Keeper) TokenPair(c, req) (resp, err)
+//@ nullable req
+//@ ensures[C19.nil C20.nil] req == nil ==> err != nil
+//@ ensures[C19.found] req != nil ==> ((err == nil) <==> (validHex(trimPrefix(req.RemoteToken, "0x")) && len(hexTok(req.RemoteToken)) <= 32 && st.tokenPairs.has[req.RemoteDomain][leftPad32(hexTok(req.RemoteToken))]))
+//@ ensures[C19.value] err == nil ==> resp.Pair.LocalToken == st.tokenPairs.local[req.RemoteDomain][leftPad32(hexTok(req.RemoteToken))]
+//@ emits[C15.query] []
+//@ calls[C15.query] []
+//@ modifies[C15.query C19.pure] none
